@@ -455,47 +455,167 @@ def _upvar_name(ups, atom):
         return "?"
 
 
+def _consistent(Fa, Fb):
+    for (c1, v1) in Fa:
+        for (c2, v2) in Fb:
+            if c1 == c2 and isinstance(v1, (bool, int)) and isinstance(v2, (bool, int)) and bool(v1) != bool(v2):
+                return False
+    return True
+
+
+KEEP_NAMES = ("crop_width", "crop_height", "centering")
+
+
+def _resolve_under(f, sym, e, F, depth=0):
+    """replace multi-definition locals of e by the one definition whose guarding facts do not
+    contradict F (correlated branches on the same condition); other locals stay atoms"""
+    if depth > 12 or not isinstance(e, tuple) or not e:
+        return e
+    if e[0] == "local":
+        if f.local_name(e[1]) in KEEP_NAMES:
+            return e            # a quantity the formula is stated in
+        defs = [d for d in f.defs().get(e[1], []) if d[3]]
+        if len(defs) >= 1 and len(defs) == len(f.defs().get(e[1], [])):
+            keep = [d for d in defs if _consistent(sym.facts_at(d[0]), F)]
+            if len(keep) == 1:
+                d = keep[0]
+                rv = sym.rvalue(d[2], d[0], (d[0], d[1]))
+                if rv != e:
+                    return _resolve_under(f, sym, rv, list(F) + list(sym.facts_at(d[0])), depth + 1)
+        return e
+    return tuple(_resolve_under(f, sym, x, F, depth + 1) if isinstance(x, tuple) else x for x in e)
+
+
+def _locals_in(e, acc=None):
+    acc = [] if acc is None else acc
+    if isinstance(e, tuple) and e:
+        if e[0] == "local":
+            if e not in acc:
+                acc.append(e)
+        else:
+            for x in e:
+                if isinstance(x, tuple):
+                    _locals_in(x, acc)
+    return acc
+
+
+def _project(e):
+    """(a, b).0 -> a"""
+    if not isinstance(e, tuple) or not e:
+        return e
+    e = tuple(_project(x) if isinstance(x, tuple) else x for x in e)
+    if e[0] == "field" and isinstance(e[1], tuple) and e[1] and e[1][0] == "agg" and e[1][1] == "tuple":
+        k = e[2]
+        try:
+            k = int(k)
+        except (TypeError, ValueError):
+            return e
+        if k < len(e[1][4]):
+            return e[1][4][k]
+    return e
+
+
 def fit_formula(rep, prog, rule):
-    rep.rule(rule, "fit_src_into_dst_size returns left = (width - crop_width) * centering.0 and "
-             "top = (height - crop_height) * centering.1 (polynomial comparison): the removed "
-             "margin is split in the ratio the centering asks for")
+    rep.rule(rule, "the box returned by fit_src_into_dst_size (through a helper, if it delegates) has "
+             "left = (width - crop_width) * centering.0 and top = (height - crop_height) * centering.1 on "
+             "every path (definitions under correlated branches are resolved consistently; polynomial "
+             "comparison): the removed margin is split in the ratio the centering asks for; a margin "
+             "multiplied by the other component of the centering is a violation")
     f = prog.fn_by_name("crop_box::CropBox::fit_src_into_dst_size")
     rep.touch(f)
-    sym = Sym(f, rd=False)
+
+    def find_agg(g):
+        """the CropBox aggregate with computed margins (a literal whole-source box
+        {0, 0, width, height} of an early return is C15.full-span's business)"""
+        found = None
+        for b, blk in enumerate(g.blocks):
+            if blk["c"]:
+                continue
+            for jx, st in enumerate(blk["s"]):
+                if st[0] == "a" and st[2][0] == "agg" and st[2][1] == "adt" and \
+                        str(st[2][2]).endswith("crop_box::CropBox"):
+                    ops = st[2][4]
+                    if len(ops) >= 2 and all(o[0] == "k" for o in ops[:2]):
+                        continue
+                    found = (b, jx, st)
+        return found
+    g = f
+    agg = find_agg(g)
+    if agg is None:
+        # delegation: _0 = helper(...)
+        for c in f.calls():
+            if c.dest and c.dest[0] == 0:
+                tg = prog.call_targets(c)
+                if len(tg) == 1 and find_agg(tg[0]) is not None:
+                    g = tg[0]
+                    agg = find_agg(g)
+                    rep.touch(g)
+    if agg is None:
+        rep.unk(rule, "crop box", f.loc, "the CropBox aggregate was not found")
+        return
+    b, jx, st = agg
+    adt = [k for k in prog.adts if k.endswith("crop_box::CropBox")]
+    fields = [x[0] for x in prog.adts[adt[0]]["variants"][0]["fields"]] if adt else ["left", "top", "width", "height"]
+    sym = Sym(g)
     P = Poly(sym)
+
+    def named(*names):
+        for nm in names:
+            for i in range(1, g.arg_count + 1):
+                if g.local_name(i) == nm:
+                    return p_atom(("v", nm))
+            l = _local(g, nm)
+            if l is not None:
+                return p_atom(("l", nm, l))
+        return None
     n = 0
-    for nm, dim, crop, ci in (("crop_left", "src_width", "crop_width", 0),
-                              ("crop_top", "src_height", "crop_height", 1)):
-        l = _local(f, nm)
-        cl = _local(f, crop)
-        if l is None or cl is None:
-            rep.unk(rule, nm, f.loc, "locals %s / %s not found" % (nm, crop))
+    for fld, dims, crop, ci in (("left", ("src_width", "width"), "crop_width", 0),
+                                ("top", ("src_height", "height"), "crop_height", 1)):
+        if fld not in fields:
             continue
-        ds = [d for d in f.defs().get(l, []) if d[3]]
-        if len(ds) != 1:
-            rep.unk(rule, nm, f.loc, "%d definitions of %s" % (len(ds), nm))
-            continue
-        n += 1
-        e = sym.rvalue(ds[0][2], ds[0][0])
-        act = P.norm(e)
-        if act is None:
-            rep.unk(rule, nm, f.loc, "does not normalise (%s)" % P.failed)
-            continue
-        cents = sorted((a for a in atoms_of(act) if a[0] == "f" and "centering" in a[1]), key=repr)
-        cw = p_atom(("l", crop, cl))
-        ok = False
-        for ca in cents:
-            exp = p_mul(p_add(p_atom(("v", dim)), cw, -1), p_atom(ca))
-            if equal(act, exp) and str(ca[2]) == str(ci):
-                ok = True
-        if ok:
-            rep.ok(rule, nm, f.loc, "%s = %s" % (nm, show(act)[:120]))
-        elif len(cents) == 1 and not [a for a in atoms_of(act) if a[0] in ("g", "trunc", "max", "min", "floor")]:
-            exp = p_mul(p_add(p_atom(("v", dim)), cw, -1), p_atom(cents[0]))
-            rep.bad(rule, nm, f.loc, "%s is  %s  but the property requires  (%s - %s) * centering.%d"
-                    % (nm, show(act)[:160], dim, crop, ci))
+        op = st[2][4][fields.index(fld)]
+        e0 = sym.operand(op, (b, jx))
+        # the definitions of the operand (one per path)
+        variants = []
+        multi = [a for a in _locals_in(e0) if len([d for d in g.defs().get(a[1], []) if d[3]]) > 1
+                 and g.local_name(a[1]) not in KEEP_NAMES]
+        if multi:
+            L = multi[0]
+            for d in g.defs()[L[1]]:
+                F = sym.facts_at(d[0])
+                from .validators import subst as esubst
+                e1 = esubst(e0, {L: sym.rvalue(d[2], d[0], (d[0], d[1]))})
+                variants.append((_project(_resolve_under(g, sym, e1, F)), F,
+                                 g.blocks[d[0]]["s"][d[1]][3] if d[1] != "term" else g.loc))
         else:
-            rep.unk(rule, nm, f.loc, "%s = %s: shape not recognised" % (nm, show(act)[:140]))
+            variants.append((_project(_resolve_under(g, sym, e0, sym.facts_at(b))), sym.facts_at(b), st[3]))
+        D = named(*dims)
+        Cw = named(crop)
+        for vi, (e, F, loc) in enumerate(variants):
+            n += 1
+            key = "crop_%s" % fld + ("" if len(variants) == 1 else "#%d" % vi)
+            act = P.norm(e)
+            if act is None or D is None or Cw is None:
+                rep.unk(rule, key, loc, "does not normalise (%s)" % P.failed)
+                continue
+            cents = sorted((a for a in atoms_of(act) if a[0] == "f" and "centering" in a[1]), key=repr)
+            ok = any(equal(act, p_mul(p_add(D, Cw, -1), p_atom(ca))) and str(ca[2]) == str(ci) for ca in cents)
+            if ok:
+                rep.ok(rule, key, loc, "%s = %s" % (fld, show(act)[:120]))
+                continue
+            if not act:
+                # a zero margin: fine where the path established that this dimension is not cropped
+                if any(crop in fmt(c_) or any(d_ in fmt(c_) for d_ in dims) or "crop_" in fmt(c_) for c_, _ in F):
+                    rep.ok(rule, key, loc, "%s = 0 on a path that compared the crop size with the source" % fld)
+                else:
+                    rep.unk(rule, key, loc, "%s = 0 without a comparison of the crop size on the path" % fld)
+                continue
+            opaque = [a for a in atoms_of(act) if a[0] in ("g", "trunc", "max", "min", "floor")]
+            if len(cents) == 1 and not opaque:
+                rep.bad(rule, key, loc, "%s is  %s  but the property requires  (%s - %s) * centering.%d"
+                        % (fld, show(act)[:160], dims[0], crop, ci))
+            else:
+                rep.unk(rule, key, loc, "%s = %s: shape not recognised" % (fld, show(act)[:140]))
     rep.floor(rule, "margin expressions", n, 2)
 
 
